@@ -158,6 +158,7 @@ func TestC07(t *testing.T) {
 
 // C08: address conflicts / reclaim / departures: the non-local table plus random histories.
 func TestC08(t *testing.T) {
+	runSel(t, "C08", 840)
 	runTable("C08", "n1")
 	n := envInt("VERIF_N", 1500)
 	if thorough() {
